@@ -18,7 +18,7 @@ func replay(r *ev.Run) {
 		fmt.Printf("replay (v2 key ring API): history %v, operation %s\n", c.Ring.History, c.Ring.Op)
 		calls, _ := ringElement(r, st, c.Ring.History, c.Ring.Op, nil, nil, "", true)
 		for i, cl := range calls {
-			fmt.Printf("      call %2d %s\n", i, ringCallName(cl))
+			fmt.Printf("      call #%-2d %s\n", i+1, ringCallName(cl))
 		}
 		r.States(1)
 		if c.Ring.Call >= 0 {
@@ -47,14 +47,16 @@ func replay(r *ev.Run) {
 func (rn *runner) replayJob(j job, only *replayT) {
 	w := j.w
 	lab := w.newLab()
-	defer lab.Close()
 	lab.Replay(j.pre.hist)
 	c := &jobCtx{runner: rn, j: j, lab: lab, seam: lab.S.Seam(), only: only}
+	defer func() { c.lab.Close() }()
 	var err error
 	if c.cpOld, err = lab.Checkpoint(); err != nil {
 		ev.Fatalf("%v", err)
 	}
-	c.rollback(c.cpOld)
+	if !w.cfg.Cached() {
+		c.rollback(c.cpOld)
+	}
 	c.pre = lab.State()
 	c.opClass = w.opClass(j.op, c.pre.Slot(w.test))
 	fmt.Printf("  pre-state: %s\n", stateSig(c.pre))
@@ -69,7 +71,7 @@ func (rn *runner) replayJob(j job, only *replayT) {
 	}
 	fmt.Printf("  without fault: %s returns %v, keys afterwards: %s; %d seam calls:\n", j.op, res0.Err, stateSig(c.neu), len(c.calls))
 	for i, cl := range c.calls {
-		fmt.Printf("      call %2d %s\n", i, w.callName(cl))
+		fmt.Printf("      call #%-2d %s\n", i+1, w.callName(cl))
 	}
 	rn.r.States(1)
 	c.judgeUnfaulted(res0)
